@@ -1,6 +1,7 @@
 package main
 
 import (
+	"bufio"
 	"encoding/json"
 	"flag"
 	"fmt"
@@ -174,101 +175,199 @@ func newInterp(l *loaded, ex *Explorer) *Interp {
 	return it
 }
 
+type runOpts struct {
+	harness    string
+	params     string
+	maxPaths   int
+	timeout    int
+	maxSteps   int
+	solverKind string
+	qtimeout   int
+	out        string
+	trace      bool
+	transcript string
+	known      string
+	property   string
+	nonterm    bool
+	vectorFile string
+}
+
+type session struct {
+	l      *loaded
+	pkg    *ssa.Package
+	full   string
+	it     *Interp
+	loadS  float64
+	inited bool
+}
+
+func newSession(repo, hdir, pkgPath string) (*session, error) {
+	start := time.Now()
+	full := pkgPath
+	if !strings.HasPrefix(full, "cuelabs.dev/") {
+		full = repoModule
+		if pkgPath != "" && pkgPath != "." {
+			full += "/" + pkgPath
+		}
+	}
+	l, err := loadProgram(repo, hdir, []string{full})
+	if err != nil {
+		return nil, err
+	}
+	pkg := l.byPath[full]
+	if pkg == nil {
+		return nil, fmt.Errorf("package not loaded: %s", full)
+	}
+	return &session{l: l, pkg: pkg, full: full, loadS: time.Since(start).Seconds()}, nil
+}
+
 func cmdRun(args []string) int {
 	fs := flag.NewFlagSet("run", flag.ExitOnError)
 	repo := fs.String("repo", "/repo", "repository root")
 	hdir := fs.String("harness-dir", "/verif/harness", "harness directory")
 	pkgPath := fs.String("pkg", "", "package import path (relative to the module or absolute)")
-	harness := fs.String("harness", "", "harness function name")
-	maxPaths := fs.Int("maxpaths", 200000, "path budget")
-	timeout := fs.Int("timeout", 600, "wall clock budget (s)")
-	maxSteps := fs.Int("maxsteps", 2000000, "interpreter step budget per path")
-	solverKind := fs.String("solver", "z3", "z3 | z3-new | cvc5")
-	qtimeout := fs.Int("qtimeout", 10000, "per-query solver timeout (ms)")
-	out := fs.String("out", "", "result JSON file")
-	trace := fs.Bool("trace", false, "trace instructions")
-	transcript := fs.String("smt", "", "write the SMT transcript to this file")
-	known := fs.String("known", "/verif/known_findings.jsonl", "known findings file")
-	property := fs.String("property", "", "property id (for known findings)")
-	params := fs.String("params", "", "harness parameters k=v,k=v (read by verifParam)")
-	vectorFile := fs.String("vector", "", "concrete replay vector: run the harness with these inputs (selfcheck)")
+	var o runOpts
+	fs.StringVar(&o.harness, "harness", "", "harness function name")
+	fs.IntVar(&o.maxPaths, "maxpaths", 200000, "path budget")
+	fs.IntVar(&o.timeout, "timeout", 600, "wall clock budget (s)")
+	fs.IntVar(&o.maxSteps, "maxsteps", 2000000, "interpreter step budget per path")
+	fs.StringVar(&o.solverKind, "solver", "z3", "z3 | z3-new | cvc5")
+	fs.IntVar(&o.qtimeout, "qtimeout", 10000, "per-query solver timeout (ms)")
+	fs.StringVar(&o.out, "out", "", "result JSON file")
+	fs.BoolVar(&o.trace, "trace", false, "trace instructions")
+	fs.StringVar(&o.transcript, "smt", "", "write the SMT transcript to this file")
+	fs.StringVar(&o.known, "known", "/verif/known_findings.jsonl", "known findings file")
+	fs.StringVar(&o.property, "property", "", "property id (for known findings)")
+	fs.StringVar(&o.params, "params", "", "harness parameters k=v,k=v (read by verifParam)")
+	fs.BoolVar(&o.nonterm, "nonterm", false, "treat exceeding the step budget as a non-termination violation")
+	fs.StringVar(&o.vectorFile, "vector", "", "concrete replay vector: run the harness with these inputs (selfcheck)")
+	worker := fs.Bool("worker", false, "worker mode: read JSON jobs from stdin, one per line")
 	fs.Parse(args)
 
-	start := time.Now()
-	full := *pkgPath
-	if !strings.HasPrefix(full, "cuelabs.dev/") {
-		full = repoModule
-		if *pkgPath != "" && *pkgPath != "." {
-			full += "/" + *pkgPath
-		}
-	}
-	l, err := loadProgram(*repo, *hdir, []string{full})
+	s, err := newSession(*repo, *hdir, *pkgPath)
 	if err != nil {
 		fmt.Fprintln(os.Stderr, "load:", err)
 		return 2
 	}
-	loadS := time.Since(start).Seconds()
-	pkg := l.byPath[full]
-	if pkg == nil {
-		fmt.Fprintln(os.Stderr, "package not loaded:", full)
-		return 2
+	if *worker {
+		sc := bufio.NewScanner(os.Stdin)
+		sc.Buffer(make([]byte, 1<<20), 1<<20)
+		for sc.Scan() {
+			var job struct {
+				Harness  string `json:"harness"`
+				Params   string `json:"params"`
+				Out      string `json:"out"`
+				Timeout  int    `json:"timeout"`
+				MaxPaths int    `json:"maxpaths"`
+				MaxSteps int    `json:"maxsteps"`
+				QTimeout int    `json:"qtimeout"`
+				NonTerm  bool   `json:"nonterm"`
+				Solver   string `json:"solver"`
+			}
+			if json.Unmarshal(sc.Bytes(), &job) != nil {
+				continue
+			}
+			jo := o
+			jo.harness, jo.params, jo.out, jo.nonterm = job.Harness, job.Params, job.Out, job.NonTerm
+			if job.Timeout > 0 {
+				jo.timeout = job.Timeout
+			}
+			if job.MaxPaths > 0 {
+				jo.maxPaths = job.MaxPaths
+			}
+			if job.MaxSteps > 0 {
+				jo.maxSteps = job.MaxSteps
+			}
+			if job.QTimeout > 0 {
+				jo.qtimeout = job.QTimeout
+			}
+			if job.Solver != "" {
+				jo.solverKind = job.Solver
+			}
+			code := s.run(jo)
+			fmt.Printf("DONE %d %s\n", code, job.Out)
+		}
+		return 0
 	}
-	hfn := pkg.Func(*harness)
+	return s.run(o)
+}
+
+func (s *session) run(o runOpts) int {
+	start := time.Now()
+	l, pkg, full := s.l, s.pkg, s.full
+	hfn := pkg.Func(o.harness)
 	if hfn == nil {
-		fmt.Fprintln(os.Stderr, "harness not found:", *harness)
+		fmt.Fprintln(os.Stderr, "harness not found:", o.harness)
 		return 2
 	}
 	var tw *os.File
-	if *transcript != "" {
-		tw, _ = os.Create(*transcript)
+	if o.transcript != "" {
+		tw, _ = os.Create(o.transcript)
 		defer tw.Close()
 	}
 	var solver *Solver
+	var err error
 	if tw != nil {
-		solver, err = NewSolver(*solverKind, *qtimeout, tw)
+		solver, err = NewSolver(o.solverKind, o.qtimeout, tw)
 	} else {
-		solver, err = NewSolver(*solverKind, *qtimeout, nil)
+		solver, err = NewSolver(o.solverKind, o.qtimeout, nil)
 	}
 	if err != nil {
 		fmt.Fprintln(os.Stderr, "solver:", err)
 		return 2
 	}
 	defer solver.Close()
-	ex := &Explorer{solver: solver, maxPaths: *maxPaths, maxSteps: *maxSteps, maxConcretize: 64}
-	ex.deadline = start.Add(time.Duration(*timeout) * time.Second)
-	ex.known = loadKnown(*known, *property, *harness)
-	it := newInterp(l, ex)
-	it.trace = *trace
-	it.params = parseParams(*params)
-	if *vectorFile != "" {
-		if err := it.loadVector(*vectorFile); err != nil {
+	ex := &Explorer{solver: solver, maxPaths: o.maxPaths, maxSteps: o.maxSteps, maxConcretize: 64}
+	ex.deadline = start.Add(time.Duration(o.timeout) * time.Second)
+	ex.known = loadKnown(o.known, o.property, o.harness)
+	if s.it == nil {
+		s.it = newInterp(l, ex)
+	}
+	it := s.it
+	it.ex = ex
+	ex.it = it
+	it.funcsRepo = map[string]int{}
+	it.funcsStd = map[string]int{}
+	it.modelsUsed = map[string]int{}
+	it.mstate.assumptions = map[string]bool{}
+	it.trace = o.trace
+	it.nonterminationIsViolation = o.nonterm
+	it.params = parseParams(o.params)
+	it.vector = nil
+	if o.vectorFile != "" {
+		if err := it.loadVector(o.vectorFile); err != nil {
 			fmt.Fprintln(os.Stderr, "vector:", err)
 			return 2
 		}
 	}
 
-	// package initialisation (once; concrete)
-	ex.maxSteps = 200000000
-	initOK := true
-	func() {
-		defer func() {
-			if r := recover(); r != nil {
-				fmt.Fprintf(os.Stderr, "init failed: %v %s\n", r, it.panicWhere())
-				initOK = false
-			}
+	if !s.inited {
+		// package initialisation (once; concrete)
+		ex.maxSteps = 200000000
+		initOK := true
+		func() {
+			defer func() {
+				if r := recover(); r != nil {
+					fmt.Fprintf(os.Stderr, "init failed: %v %s\n", r, it.panicWhere())
+					initOK = false
+				}
+			}()
+			it.runPackageInit(nil, pkg.Func("init"))
 		}()
-		it.runPackageInit(nil, pkg.Func("init"))
-	}()
-	if !initOK {
-		return 2
-	}
-	if st := it.pkgInit[pkg]; st != "ok" {
-		fmt.Fprintf(os.Stderr, "init of %s: %s\n", pkg.Pkg.Path(), st)
-		return 2
+		if !initOK {
+			return 2
+		}
+		if st := it.pkgInit[pkg]; st != "ok" {
+			fmt.Fprintf(os.Stderr, "init of %s: %s\n", pkg.Pkg.Path(), st)
+			return 2
+		}
+		s.inited = true
 	}
 	ex.journal = nil // initial state is the baseline
-	ex.maxSteps = *maxSteps
+	ex.maxSteps = o.maxSteps
 	ex.steps = 0
+	loadS := s.loadS
+	harness, params, out, solverKind := &o.harness, &o.params, &o.out, &o.solverKind
 
 	entry := func() {
 		it.mstate.perPath = map[string]interface{}{}
